@@ -4,6 +4,7 @@ mod selfcheck;
 mod pipeline;
 mod prog;
 mod refmodel;
+mod typemodel;
 mod report;
 #[allow(dead_code, clippy::all)]
 #[path = "../vendor/serde_case.rs"]
@@ -50,6 +51,8 @@ fn main() {
         }
         "C01" => props::c01::run(rest),
         "C02" => props::c02::run(rest),
+        "C04" => props::c04::run(rest),
+        "C05" => props::c05::run(rest),
         "C13" => props::c13::run(rest),
         "C16" => props::c16::run(rest),
         "C18" => props::c18::run(rest),
